@@ -1491,6 +1491,8 @@ def run(chk, tier):
     from props import c03
     chk.guard('C03.m', lambda: c03.rule_mnemonics(chk, prog, tier))        # the instruction selected is the instruction printed
     chk.guard('C05.h', lambda: c05.rule_conditional(chk, prog, tier))       # the type (promotion) of a conditional expression decides the instructions of what is computed from it
+    from props import c15
+    chk.guard('C15.abc', lambda: c15.rule_orders(chk, prog, tier))       # the balanced tree behind switch: every case label stays reachable for every insertion order
     chk.guard('C07.c', lambda: c07.rule_funcinit(chk, prog, tier))         # automatic initialisation
     from props import c15
     chk.guard('C15.f', lambda: c15.rule_case_conversion(chk, prog, tier))  # the case a value reaches: constants converted to the promoted controlling type
